@@ -1,5 +1,6 @@
 """C14 — optimised paths give the same pixels as the general path."""
 from util import *
+import ras
 from terms import fmt, subterms, Deps
 import shared
 import dt
@@ -135,4 +136,4 @@ def r14_3(ctx):
 def run(ctx):
     import props.c13 as c13
     import engine
-    engine.run_rules(ctx, [r14_1, dt.r02_4, dt.r02_5, r14_3, c13.r13_4, c13.r13_5, dt.r03_8])
+    engine.run_rules(ctx, [r14_1, dt.r02_4, dt.r02_5, r14_3, c13.r13_4, c13.r13_5, dt.r03_8, ras.r01_5, dt.r03_2, dt.r03_3, dt.r03_9])
